@@ -593,7 +593,35 @@ def _inline_site(prog: Program, f: FunctionInfo, body, caller: FunctionInfo, cal
                 if not (d_.startswith("np.") or d_.startswith("numpy.") or d_ in ("len", "int", "float", "bool", "min", "max", "abs", "str", "isinstance", "range", "tuple", "list")):
                     pure_body = False
     is_method = f.cls is not None and not is_static and params and params[0] == "self"
+    # in-out parameters: ``X, Y, s2 = helper(X, Y, s2)`` where every return hands the (re-assigned) parameter back in the
+    # position of the target with the argument's own name - the parameter simply is the caller's variable
+    inout: Dict[str, str] = {}
+    if kind == "assign" and len(stmt.targets) == 1:
+        tgt_ = stmt.targets[0]
+        tn_ = [e.id if isinstance(e, ast.Name) else None for e in tgt_.elts] if isinstance(tgt_, ast.Tuple) else ([tgt_.id] if isinstance(tgt_, ast.Name) else [])
+        rets_ = [n for s_ in body for n in ast.walk(s_) if isinstance(n, ast.Return)]
+        rows_ = []
+        for r_ in rets_:
+            v_ = r_.value
+            rows_.append([e.id if isinstance(e, ast.Name) else None for e in v_.elts] if isinstance(v_, ast.Tuple) else ([v_.id] if isinstance(v_, ast.Name) else [None]))
+        if tn_ and rows_ and all(len(r_) == len(tn_) for r_ in rows_):
+            arg_uses: Dict[str, int] = {}
+            for a_ in list(call.args) + [k_.value for k_ in call.keywords]:
+                for n_ in ast.walk(a_):
+                    if isinstance(n_, ast.Name):
+                        arg_uses[n_.id] = arg_uses.get(n_.id, 0) + 1
+            for p_ in params:
+                a_ = bound.get(p_)
+                if isinstance(a_, ast.Name) and p_ in callee_assigned and arg_uses.get(a_.id) == 1:
+                    idxs = [i_ for i_, t_ in enumerate(tn_) if t_ == a_.id]
+                    if len(idxs) == 1 and all(r_[idxs[0]] == p_ for r_ in rows_) and all(r_.count(p_) == 1 for r_ in rows_):
+                        # the caller's name must not collide with another local of the helper
+                        if a_.id == p_ or a_.id not in (callee_locals | set(params)):
+                            inout[p_] = a_.id
     for p in params:
+        if p in inout:
+            names[p] = inout[p]
+            continue
         if is_method and p == "self":
             recv = call.func.value if isinstance(call.func, ast.Attribute) else None
             if isinstance(recv, ast.Name):
